@@ -836,5 +836,120 @@ theorem runPhases_obs (Y : YieldFn) (F : BodyFn) (s : Sess) (t : Nat) (tk : PTas
           simp [invoke, hid, hsp.1.1, hsp.1.2.1, hsp.1.2.2.1]
     | _ => left; exact ⟨h12.2.1, h12.2.2.1, h12.1⟩
 
+theorem protocol_obs (Y : YieldFn) (F : BodyFn) (s : Sess) (t : Nat) (tk : PTask) (hf : findTask s.tasks t = some tk) :
+    ((protocol Y F s t).log = s.log ∧ (protocol Y F s t).recv = s.recv ∧ (protocol Y F s t).w.fs = s.w.fs) ∨
+    ((protocol Y F s t).log = s.log ++ [t] ∧
+      (protocol Y F s t).recv = s.recv ++ [⟨t, received (resolvedDeps s.w.fs tk), seenBy (resolvedDeps s.w.fs tk) s.w.fs⟩] ∧
+      (protocol Y F s t).w.fs = (if (resolvedDeps s.w.fs tk).gen then s.w.fs else (runBody F (resolvedDeps s.w.fs tk) s.w.fs).1)) := by
+  unfold protocol
+  have hfr := reportChain_frame (runPhases Y F s t).1 t (runPhases Y F s t).2
+  simp only [] at hfr
+  rw [hfr.2.2.2.2.1, hfr.2.2.2.2.2.1, hfr.2.2.2.2.2.2.2]
+  rcases runPhases_obs Y F s t tk hf with h | h
+  · left; exact ⟨h.1, h.2.1, by rw [h.2.2]⟩
+  · right; exact ⟨h.1, h.2.1, h.2.2.2⟩
+
+theorem received_resolvedDeps (fs : FS) (tk : PTask) :
+    received (resolvedDeps fs tk) = tk.pdeps.map (fun sl => sl.res.getD (sl.pat.glob fs)) := by
+  unfold resolvedDeps received
+  by_cases hu : unresolved tk.pdeps = true
+  · simp only [hu, if_true, List.map_map]
+    apply List.map_congr_left
+    intro sl _
+    rcases sl with ⟨pat, _ | l⟩ <;> simp [Slot.resolve]
+  · simp only [hu, Bool.false_eq_true, if_false]
+    apply List.map_congr_left
+    intro sl hsl
+    have : sl.res.isNone = false := by
+      unfold unresolved at hu
+      simp only [List.any_eq_true, not_exists, not_and, Bool.not_eq_true] at hu
+      exact hu sl hsl
+    cases hr : sl.res with
+    | none => rw [hr] at this; cases this
+    | some l => rfl
+
+theorem seenBy_resolvedDeps (fs fs' : FS) (tk : PTask) :
+    seenBy (resolvedDeps fs tk) fs' = tk.pdeps.map (fun sl => sl.pat.glob fs') := by
+  unfold resolvedDeps seenBy
+  by_cases hu : unresolved tk.pdeps = true
+  · simp only [hu, if_true, List.map_map]
+    apply List.map_congr_left
+    intro sl _
+    rcases sl with ⟨pat, _ | l⟩ <;> simp [Slot.resolve]
+  · simp only [hu, Bool.false_eq_true, if_false]
+
+theorem mem_glob {π : Pat} {fs : FS} {n : Nat} :
+    n ∈ π.glob fs ↔ π.lo ≤ n ∧ n < π.lo + π.len ∧ (lookup fs n).isSome = true := by
+  unfold Pat.glob
+  simp only [List.mem_filter, List.mem_range'_1]
+  constructor
+  · rintro ⟨⟨h1, h2⟩, h3⟩; exact ⟨h1, h2, h3⟩
+  · rintro ⟨h1, h2, h3⟩; exact ⟨⟨h1, h2⟩, h3⟩
+
+theorem stepOf_log (Y : YieldFn) (F : BodyFn) (s : Sess) (t : Nat) (hf : (findTask s.tasks t).isSome) :
+    (stepOf Y F s t).log = s.log ∨ (stepOf Y F s t).log = s.log ++ [t] := by
+  cases hft : findTask s.tasks t with
+  | none => rw [hft] at hf; cases hf
+  | some tk =>
+    have := protocol_obs Y F { s with so := s.so.take [tv t] } t tk hft
+    rcases this with h | h
+    · left; exact h.1
+    · right; exact h.1
+
+/-- The body log grows by a sublist of the picks. -/
+theorem loop_log {Y : YieldFn} {F : BodyFn} : ∀ (picks : List Nat) (s s' : Sess),
+    loop Y F s picks = .ok s' → ∃ l, l.Sublist picks ∧ s'.log = s.log ++ l
+  | [], s, s', h => by
+    simp only [loop, Except.ok.injEq] at h
+    subst h; exact ⟨[], List.Sublist.refl _, by simp⟩
+  | t :: ts, s, s', h => by
+    obtain ⟨_, _, _, h4, h5⟩ := loop_cons h
+    obtain ⟨l, hl1, hl2⟩ := loop_log ts _ s' h5
+    rcases stepOf_log Y F s t h4 with hlog | hlog
+    · exact ⟨l, List.Sublist.cons _ hl1, by rw [hl2, hlog]⟩
+    · exact ⟨t :: l, List.Sublist.cons_cons _ hl1, by rw [hl2, hlog]; simp⟩
+
+theorem tv_inj' {a b : Nat} (h : tv a = tv b) : a = b := by unfold tv at h; omega
+
+theorem loop_nodup {Y : YieldFn} {F : BodyFn} {ts0 : List PTask} : ∀ (picks : List Nat) (s s' : Sess) (h : List Nat),
+    LInv ts0 s h → h.Nodup → loop Y F s picks = .ok s' → (h ++ picks).Nodup
+  | [], _, _, h, _, hn, _ => by simpa using hn
+  | t :: ts, s, s', h, hi, hn, hl => by
+    obtain ⟨h1, _, h3, h4, h5⟩ := loop_cons hl
+    obtain ⟨f, _, hr⟩ := (hi.good h1).reach
+    have hnd := (reach_inv (Reach.ready 1 [tv t] hr h3)).hnodup
+    have hn' : (h ++ [t]).Nodup := by
+      have : ((h ++ [t]).map tv).Nodup := by simpa using hnd
+      exact (List.pairwise_map.1 this).imp (fun hne heq => hne (by rw [heq]))
+    have := loop_nodup ts _ s' (h ++ [t]) (stepOf_inv hi h1 h3 h4) hn' h5
+    simpa [List.append_assoc] using this
+
+/-- When a task is handed out, every task-ancestor in the *current* graph has completed its protocol. -/
+theorem pick_order {ts0 : List PTask} {s : Sess} {h : List Nat} {t : Nat} (hi : LInv ts0 s h) (hstop : s.stop = false)
+    (hl : LegalBatch s.so 1 [tv t]) (hf : (findTask s.tasks t).isSome) (a : Nat) (ha : a ∈ taskAnc s.g t) : a ∈ h := by
+  have hg := hi.good hstop
+  obtain ⟨f, hfd, hr⟩ := hg.reach
+  obtain ⟨m, hdag⟩ := hg.dag
+  unfold taskAnc at ha
+  simp only [List.mem_map, List.mem_filter] at ha
+  obtain ⟨v, ⟨hv1, hv2⟩, rfl⟩ := ha
+  cases hft : findTask s.tasks t with
+  | none => rw [hft] at hf; cases hf
+  | some tk =>
+    have hnode : tv t ∈ s.g.nodes := by
+      have := (createDag_spec hdag tk (findTask_mem hft)).1
+      rwa [findTask_id hft] at this
+    have hedge : (v, tv t) ∈ f.edges := (fromDag_edges hfd v (tv t)).2 ⟨hnode, by unfold isTaskV tv; simp, hv1, hv2⟩
+    have hinv := reach_inv hr
+    have hav := mem_avail.1 (hl.2.1 (tv t) (by simp))
+    have hdone : v ∈ s.so.done := by
+      rcases hinv.edges v (tv t) hedge hav.1 with he | hd
+      · exact absurd he (indeg0_iff.1 hav.2.1 v)
+      · exact hd
+    rw [hi.done] at hdone
+    obtain ⟨a', ha', hv⟩ := List.mem_map.1 hdone
+    have : v / 2 = a' := by rw [← hv]; unfold tv; omega
+    rw [this]; exact ha'
+
 end Prov
 end Pytask
